@@ -16,7 +16,17 @@ from ..sm import first_pred_failure, replay_sm, run_sm, targeted_search
 FIELDS = ["out", "nodes", "edges", "mem", "memb", "nattr", "eattr", "nattrK", "eattrK", "net", "uid", "frozen", "res", "clone"]
 # freeze() and the three cloning routes validate the frozen semantics of SC.step (Props/C18S) and SC.copy / SC.ofComplex /
 # HG.pickleRoundTrip (Props/C07S) step by step; a history that freezes is refused everything afterwards, hence the small weight
-WEIGHTS = {"freeze": 0.5, "copy": 1.5, "pickle": 0.7, "construct": 1.5}
+WEIGHTS = {"freeze": 0.5, "copy": 1.5, "pickle": 0.7, "construct": 1.5,
+           # NOT generated: the inherited Hypergraph mutators random_edge_shuffle / double_edge_swap / remove_node_from_edge.
+           # C03's statement enumerates "a simplicial complex's own mutating calls (adding simplices ..., removing simplices
+           # by ID, removing nodes, closing, cleanup, the deprecated edge aliases)"; the inherited edge shuffle / swap are
+           # outside that enumeration (V2 of review 2: random_edge_shuffle does break closure — recorded as an observation
+           # in the manifest note; harness/sc.py can generate these calls when a check names them in its weights).
+           "add_node_to_edge": 0.4,     # refused by the class itself ("not implemented in SimplicialComplex")
+           # input families of harness/sc.py (share of the histories that use them)
+           "$exotic": 0.12, "$tuples": 0.12, "$containers": 0.2, "$large": 0.02}
+# the second run of the regime family: every quick run has at least this many large histories
+LARGE_RUNS = 2
 
 ADD1 = ("add_simplex", "add_edge")
 ADDN = ("add_simplices_from", "add_edges_from", "add_weighted_simplices_from", "add_weighted_edges_from")
@@ -25,8 +35,20 @@ RMN = ("remove_simplex_ids_from", "remove_edges_from")
 
 
 def k(x):
-    """hashable key of a JSON-encoded id (int | str | None | list for a tuple id)"""
-    return tuple(x) if isinstance(x, list) else x
+    """hashable key of a JSON-encoded id (int | str | None | list for a tuple id).  IDs outside the model's domain travel
+    as "$x:<kind>:<text>" (harness/dhg.py): a numpy integer and a float that is an integer are the dict key of the int
+    they equal (np.int64(1) == 1.0 == 1, same hash)"""
+    if isinstance(x, list):
+        return tuple(k(y) for y in x)
+    if isinstance(x, str) and x.startswith("$x:np:"):
+        return int(x[6:])
+    if isinstance(x, str) and x.startswith("$x:float:"):
+        f = float(x[9:])
+        return int(f) if f.is_integer() else x
+    return x
+
+
+STATE = ("nodes", "edges", "mem", "memb", "nattr", "eattr", "nattrK", "eattrK", "net", "uid", "frozen")
 
 
 def srt(xs):
@@ -43,6 +65,18 @@ def memmap(snap):
 
 
 def pred(snap, op, prev, exc):
+    """the clauses of C03 after one call.  After one of the inherited Hypergraph mutators (harness/sc.py INHERITED: edge
+    shuffle / swap, node <-> edge links — public methods of the class, listed by SimplicialComplex.freeze() among the
+    mutators it disables) the failing clauses are reported under ONE class that names the cause."""
+    fails = clauses(snap, op, prev, exc)
+    if op["op"] in M.INHERITED and fails and fails[0][0] not in ("call-does-not-return", "id-outside-domain"):
+        what = "; ".join(f"{c}: {d}" for c, d in fails[:3])
+        return [("inherited-mutator-breaks-complex", f"{op['op']} on a SimplicialComplex "
+                 + ("returned" if exc is None else f"raised {type(exc).__name__}") + f" and left: {what}")]
+    return fails
+
+
+def clauses(snap, op, prev, exc):
     fails = []
     name = op["op"]
     if snap.get("out") == "err:hang":        # harness/sc.py watchdog: the call never came back
@@ -161,6 +195,13 @@ def pred(snap, op, prev, exc):
         if cur != mem or curn != [k(n) for n in nodes] or raised != (exc is not None):
             fails.append(("node-removal-inexact", f"after removing nodes {ns}: expected simplices {srt(cur)} nodes {curn}, "
                                                   f"got {srt(mem)} nodes {[k(n) for n in nodes]}"))
+    # ---- closing adds the missing subfaces and nothing else: no node, no simplex that is not a face of an old simplex
+    if name == "close" and all(v is not None for v in pm.values()):
+        newn = [n for n in nodes if k(n) not in {k(x) for x in prev["nodes"]}]
+        newf = [(f, srt(m)) for f, m in mem.items() if f not in pm and m is not None and not any(m <= o for o in pm.values())]
+        if newn or newf:
+            fails.append(("close-adds-non-face", f"close() created nodes {newn} and simplices {newf[:3]} that are no subfaces "
+                                                 f"of the simplices {srt(map(srt, set(pm.values())))[:4]}"))
     # ---- additions
     if name in ADD1 + ADDN + ("close",):
         # an addition never removes or changes an existing simplex
@@ -249,7 +290,9 @@ def explain(ctx, dis, hist, corr_name):
     specification from then on), or (2) the call is an addition whose arguments contain None (member or id) at a site
     whose validate-first / faces-after-raise findings (F3c / F3e) are still listed - the only inputs on which the
     unfixed code differs from the fixed one without breaking the predicate (a None member in a simplex cut by
-    max_order=0 is silently accepted; faces queued for cut simplices are dropped when a later element raises), or (3)
+    max_order=0 is silently accepted; faces queued for cut simplices are dropped when a later element raises), or (4) the
+    call is close() while its finding `close-adds-non-face` is listed (the unrepaired close() refuses a complex whose first
+    face mixes str and other labels), or (3)
     the call is the alias add_edges_from with a max_order while its dropped-argument finding is listed (a too large
     simplex whose explicit id already exists is refused with a warning instead of being cut).
     The excuses disappear with the entries of known_findings/C03.json."""
@@ -266,6 +309,12 @@ def explain(ctx, dis, hist, corr_name):
         if _has_none(ops[-1]) and ((site, "edge-attr-record") in known or (site, "not-closed") in known):
             explained += 1
             continue
+        if site in M.INHERITED and (site, "inherited-mutator-breaks-complex") in known:
+            explained += 1          # (5) the model describes the class that refuses the inherited mutator with XGIError; the
+            continue                #     unrepaired method fails with its own error kind (ValueError from random.sample, IDNotFound …)
+        if site == "close" and ("close", "close-adds-non-face") in known:
+            explained += 1          # (4) close() still hands faces over as tuples: a first face that mixes str and other labels is
+            continue                #     refused ("Members cannot be specified as a string"); the model describes the repaired close()
         if site == "add_edges_from" and ops[-1].get("max_order") is not None and (site, "max-order-exceeded") in known:
             explained += 1          # (3) the alias drops max_order: a cut simplex whose explicit id exists is refused instead
             continue
@@ -293,9 +342,16 @@ RULE = ("histories of 1-22 public calls on xgi.SimplicialComplex from one PRNG: 
         "None-containing member lists), remove_simplex_id(s_from) incl. ids that disappear mid-loop, remove_node(s), "
         "close, cleanup, the deprecated aliases, has_simplex queries, occasionally freeze() (everything after it must be "
         "refused) and copy() / pickle round trip / SimplicialComplex(S) whose clone is compared with the model's; corpus/C03 "
-        "replays first; non-trivial = distinct "
+        "replays first; input families: exotic explicit IDs, tuple node labels, member containers (set / frozenset / tuple / dict "
+        "keys / numpy array / generator; bunch as list / tuple / generator; the same simplex twice in one bunch), two large "
+        "complexes per run (74 labels, IDs above 2**53); non-trivial = distinct "
         "full snapshot with a simplex of >=3 nodes after >=2 op kinds")
-ASSUMPTIONS = ["IDs restricted to int/str/None; bool/float/tuple node IDs and unhashable members outside the model",
+ASSUMPTIONS = ["node labels int/str/tuple (tuple labels in 12 % of the histories; a format-1 bunch then starts with a set), simplex IDs "
+               "int/str/None in the model; explicit IDs uuid.UUID / 10**309 / floats / numpy integers / bytes are generated in 12 % of "
+               "the histories and judged by the predicate only (numpy integers also by the model, as ints); bool/float node labels, "
+               "unhashable members and numpy arrays as member containers are outside the model",
+               "the inherited Hypergraph mutators random_edge_shuffle / double_edge_swap / remove_node_from_edge are outside the "
+               "statement's enumeration of the complex's own mutating calls and are not generated",
                "set iteration order reaches the model only as order hints (creation order of faces and nodes, "
                "list(frozenset) for close) recorded on the implementation; the hints reorder, they never decide "
                "which simplices exist, and the theorems hold for all hints",
@@ -320,6 +376,8 @@ def run(ctx):
         ctx.exhaustive = True
         ctx.extra["exhaustive_space"] = (f"correspondence (validation of the model, not the proof): all {len(extra)} call sequences "
                                          f"of length <= 3 over a {na}-call alphabet on the node universe {{1,2,3}}")
+    # regime family: every run has large complexes (>= 70 node labels and simplex IDs, labels and IDs above 2**53)
+    extra = list(extra) + [M.gen_history(ctx.rng, 2, 6, {**WEIGHTS, "$large": 1.0}) for _ in range(LARGE_RUNS)]
     dis, hist = run_sm(ctx, M, "SC", FIELDS, pred, ctx.n(110, 3000), hist_len=(1, 20), derive=derive,
                        corr_name=CORR, extra_histories=extra, weights=WEIGHTS)
     dis = explain(ctx, dis, hist, CORR)
